@@ -52,6 +52,11 @@ Proof.
   - intro H. right. now exists b.
 Qed.
 
+Lemma enc_uint_len n p x b : enc (FUint n p) (VN x) = Some b -> blen b = N.of_nat n.
+Proof.
+  cbn [enc]. destruct (x <? 256 ^ N.of_nat n); [|discriminate]. intro H; inversion H. apply blen_be_enc.
+Qed.
+
 Lemma lt_65536 t : (t <? 65536) = true -> t < 65536.
 Proof. apply N.ltb_lt. Qed.
 
@@ -347,9 +352,461 @@ Proof.
       apply (wok_set_num _ _ _ _ 51 9%nat U16 en_sh_group);
         [simpl; lia|reflexivity|reflexivity| |reflexivity|reflexivity|reflexivity|reflexivity|assumption|intros ?; reflexivity].
       cbn [sget nth]. intros b Hb. apply find_sh_group.
-      destruct v8 as [|g|?|?|? ?]; try discriminate. simpl in Hb.
-      destruct (g <? 256 ^ N.of_nat 2); [|discriminate]. inversion Hb. apply blen_be_enc.
+      destruct v8 as [|g|?|?|? ?]; try discriminate. exact (enc_uint_len 2 pAny g b Hb).
     + wk_bytes (ent 11 10 (h_set (FBytes 1 true))).
     + wk_flag (ent 23 11 h_flag).
   - exact He.
 Qed.
+
+(* ---------- clientHelloMsg ---------- *)
+Lemma p_reneg_ch_flag_bytes suites v : p_reneg_ch suites v = true -> p_flag_bytes false v = true.
+Proof.
+  destruct v as [|?|?|?|a c]; try discriminate. destruct a as [|x|?|?|? ?]; try discriminate.
+  destruct c as [|?|b|?|? ?]; try (destruct x as [|[?|?|]]; discriminate).
+  destruct x as [|[?|?|]]; try discriminate; simpl.
+  - destruct b; [reflexivity|discriminate].
+  - reflexivity.
+Qed.
+
+Lemma sni_roundtrip name b :
+  name <> [] -> ends_with_dot name = false -> sni_body (VB name) = Some b ->
+  h_sni (VB []) b = Some (VB name, []).
+Proof.
+  intros Hne Hdot Hb. unfold sni_body in Hb. cbn [unVB] in Hb.
+  destruct (wr_lp 2 name) as [n|] eqn:Wn; [|discriminate].
+  unfold h_sni. pose proof (rd_lp_wr 2 (0 :: n) b [] Hb) as R. rewrite app_nil_r in R. rewrite R.
+  cbn [is_nil unVB length sni_loop].
+  change (0 :: n) with (be_enc 1 0 ++ n).
+  rewrite (rd_uint_enc 1 0 n) by reflexivity.
+  pose proof (rd_lp_wr 2 name n [] Wn) as R2. rewrite app_nil_r in R2. rewrite R2.
+  destruct name as [|c0 name']; [contradiction|].
+  cbn [is_nil negb]. rewrite N.eqb_refl. cbn [negb]. rewrite Hdot.
+  destruct (length n); reflexivity.
+Qed.
+
+Lemma ch_exts suites exts x :
+  check_slots (ps_ch suites) exts = true -> enc_exts wt_ch exts = Some x ->
+  ext_loop tb_ch USkip (length x) (init_ch suites) x = Some exts.
+Proof.
+  intros Hv He. shape Hv exts. split_preds Hv.
+  apply (ext_roundtrip_nil tb_ch USkip wt_ch (init_ch suites) _ x); try reflexivity.
+  - nodup_slots.
+  - intros j Hj. other_slots Hj.
+  - unfold wt_ch. split_wok.
+    + (* server_name *)
+      unfold wok; cbn [w_slot w_present w_body w_type sget nth length]. split; [lia|].
+      destruct v as [|?|name|?|? ?]; try discriminate. unfold nonempty_b; cbn [unVB].
+      destruct name as [|c0 name']; [reflexivity|]. cbn [is_nil negb].
+      intros b Hb. split; [reflexivity|]. exists (ent 0 0 h_sni).
+      split; [reflexivity|]. split; [reflexivity|]. split; [|intro L; discriminate L].
+      cbn [e_h ent init_ch sget nth]. apply sni_roundtrip; [discriminate| |exact Hb].
+      simpl in HP. now apply negb_true_iff in HP.
+    + (* status_request *)
+      unfold wok; cbn [w_slot w_present w_body w_type sget nth length]. split; [lia|].
+      destruct (flag_cases _ HP0) as [E|E]; rewrite E; simpl; [reflexivity|].
+      intros b Hb. inversion Hb; subst b. split; [reflexivity|]. exists (ent 5 1 h_status).
+      split; [reflexivity|]. split; [reflexivity|]. split; [reflexivity|intro L; discriminate L].
+    + wk_list (ent 10 2 (h_app f_u16list)).
+    + wk_bytes (ent 11 3 (h_set (FBytes 1 true))).
+    + (* session_ticket *)
+      unfold wok; cbn [w_slot w_present w_body w_type sget nth length]. split; [lia|].
+      destruct (p_flag_bytes_cases _ _ HP3) as [E|[t [E _]]]; rewrite E; simpl; [reflexivity|].
+      intros b Hb. inversion Hb; subst b. split; [reflexivity|]. exists (ent 35 4 h_ticket).
+      split; [reflexivity|]. split; [reflexivity|]. split; [reflexivity|intro L; discriminate L].
+    + wk_list (ent 13 5 (h_app f_u16list)).
+    + wk_list (ent 50 6 (h_app f_u16list)).
+    + (* renegotiation_info; the initial flag comes from the SCSV *)
+      pose proof (p_reneg_ch_flag_bytes _ _ HP6) as HP6'.
+      wk_flag_bytes false (ent 65281 7 (h_flag_bytes (FBytes 1 false))).
+      cbn [sget nth init_ch]. intro E. rewrite E in HP6. simpl in HP6.
+      apply negb_true_iff in HP6. now rewrite HP6.
+    + wk_list (ent 16 8 (h_app f_alpn)).
+    + wk_flag_bytes true (ent 40 9 (h_flag_bytes (FBytes 2 true))). intros _. reflexivity.
+    + wk_flag (ent 23 10 h_flag).
+    + wk_flag (ent 18 11 h_flag).
+    + wk_list (ent 43 12 (h_app f_versions)).
+    + wk_bytes (ent 44 13 (h_set (FBytes 2 true))).
+    + wk_list (ent 51 14 (h_app f_key_shares)).
+    + wk_flag (ent 42 15 h_flag).
+    + wk_bytes (ent 45 16 (h_set (FBytes 1 false))).
+    + (* pre_shared_key, the last extension *)
+      unfold wok; cbn [w_slot w_present w_body w_type sget nth length]. split; [lia|].
+      destruct v16 as [|?|?|?|a c]; try discriminate. destruct a as [|?|?|ids|? ?]; try discriminate.
+      destruct c as [|?|?|binders|? ?]; try (destruct ids; discriminate).
+      destruct ids as [|i0 ids'].
+      * destruct binders; [reflexivity|discriminate].
+      * unfold nonempty_l; cbn [vfst unVL' is_nil negb].
+        intros b Hb. split; [reflexivity|]. exists (mkEntry (is_t 41) 17 true h_psk).
+        split; [reflexivity|]. split; [reflexivity|]. split; [|intros _; split; reflexivity].
+        cbn [e_h init_ch sget nth]. unfold h_psk.
+        assert (Hwf : wf f_psk (VP (VL (i0 :: ids')) (VL binders)) = true) by exact HP16.
+        now rewrite (dec_enc_nil f_psk _ b eq_refl Hwf Hb).
+  - exact He.
+Qed.
+
+(* ====================== whole messages ====================== *)
+Lemma obind_some {A B} (o : option A) (f : A -> option B) y :
+  obind o f = Some y -> exists x, o = Some x /\ f x = Some y.
+Proof. destruct o as [x|]; simpl; [intro H; now exists x|discriminate]. Qed.
+
+(* ---------- EE, NST13, CertReq13 ---------- *)
+Lemma roundtrip_ee exts e : valid (MEE exts) = true -> enc_msg (MEE exts) = Some e ->
+  dec_msg KEE false e = Some (MEE exts).
+Proof.
+  cbn [valid valid_part2 enc_msg enc_part2 dec_msg dec_part2]. intros Hv He.
+  apply obind_some in He as [x [He1 He2]].
+  rewrite (dec_all_enc F_ee (VB x) e eq_refl eq_refl He2).
+  now rewrite (ee_exts exts x Hv He1).
+Qed.
+
+Lemma roundtrip_nst13 lt aa nonce label exts e :
+  valid (MNST13 lt aa nonce label exts) = true -> enc_msg (MNST13 lt aa nonce label exts) = Some e ->
+  dec_msg KNST13 false e = Some (MNST13 lt aa nonce label exts).
+Proof.
+  cbn [valid valid_part2 enc_msg enc_part2 dec_msg dec_part2]. intros Hv He.
+  apply obind_some in He as [x [He1 He2]].
+  rewrite (dec_all_enc F_nst13 (VP (VN lt) (VP (VN aa) (VP (VB nonce) (VP (VB label) (VB x))))) e eq_refl eq_refl He2).
+  now rewrite (nst13_exts exts x Hv He1).
+Qed.
+
+Lemma roundtrip_cert_req13 exts e : valid (MCertReq13 exts) = true -> enc_msg (MCertReq13 exts) = Some e ->
+  dec_msg KCertReq13 false e = Some (MCertReq13 exts).
+Proof.
+  cbn [valid valid_part2 enc_msg enc_part2 dec_msg dec_part2]. intros Hv He.
+  apply obind_some in He as [x [He1 He2]].
+  rewrite (dec_all_enc F_cert_req13 (VP (VN 0) (VB x)) e eq_refl eq_refl He2).
+  now rewrite (cert_req13_exts exts x Hv He1).
+Qed.
+
+(* ---------- Certificate (TLS 1.3) ---------- *)
+Lemma cert_pass_rest st : forall r,
+  cert_pass false st (map (fun c => VP (VB c) (VB [])) r) = Some (r, st).
+Proof. induction r as [|c r IH]; simpl; [reflexivity|]. now rewrite IH. Qed.
+
+Lemma wf_cert_entries certs x0 : wf f_cert_list (cert_entries certs x0) = true.
+Proof.
+  unfold cert_entries, f_cert_list. cbn [wf andb negb]. destruct certs as [|c r]; [reflexivity|].
+  cbn [forallb wf andb negb]. induction r as [|c' r IH]; [reflexivity|]. exact IH.
+Qed.
+
+Lemma cert_list_rt certs st cl :
+  check_slots ps_cert13 st = true ->
+  (negb (is_nil certs) || (isVU (sget 0 st) && isVU (sget 1 st))) = true ->
+  enc_cert_list certs st = Some cl ->
+  wf f_cert_list cl = true /\ dec_cert_list cl = Some (certs, st).
+Proof.
+  intros Hv Hc He. unfold enc_cert_list in He. apply obind_some in He as [x0 [He1 He2]].
+  inversion He2; subst cl. split; [apply wf_cert_entries|].
+  unfold dec_cert_list, cert_entries. cbn [unVL'].
+  destruct certs as [|c r].
+  - simpl in Hc. shape Hv st. cbn [sget nth] in Hc. apply andb_prop in Hc as [H0 H1].
+    destruct v; try discriminate. destruct v0; try discriminate. reflexivity.
+  - cbn [cert_pass]. rewrite (leaf_exts st x0 Hv He1). now rewrite cert_pass_rest.
+Qed.
+
+Lemma mask_cert13_id ocsp scts exts :
+  check_slots ps_cert13 exts = true ->
+  Bool.eqb ocsp (negb (isVU (sget 0 exts))) = true -> Bool.eqb scts (negb (isVU (sget 1 exts))) = true ->
+  mask_cert13 ocsp scts exts = exts.
+Proof.
+  intros Hv H0 H1. shape Hv exts. unfold mask_cert13. cbn [sget nth] in *.
+  apply Bool.eqb_prop in H0. apply Bool.eqb_prop in H1. subst ocsp scts.
+  destruct v; destruct v0; reflexivity.
+Qed.
+
+Lemma valid_cert13_split ocsp scts certs exts : valid (MCert13 ocsp scts certs exts) = true ->
+  check_slots ps_cert13 exts = true /\
+  Bool.eqb ocsp (negb (isVU (sget 0 exts))) = true /\ Bool.eqb scts (negb (isVU (sget 1 exts))) = true /\
+  (negb (is_nil certs) || (isVU (sget 0 exts) && isVU (sget 1 exts))) = true.
+Proof.
+  cbn [valid valid_part2]. intro H. apply andb_prop in H as [H H4]. apply andb_prop in H as [H H3].
+  apply andb_prop in H as [H1 H2]. auto.
+Qed.
+
+Lemma roundtrip_cert13 ocsp scts certs exts e :
+  valid (MCert13 ocsp scts certs exts) = true -> enc_msg (MCert13 ocsp scts certs exts) = Some e ->
+  dec_msg KCert13 false e = Some (MCert13 ocsp scts certs exts).
+Proof.
+  intros Hv He. apply valid_cert13_split in Hv as [Hs [H0 [H1 Hc]]].
+  cbn [enc_msg enc_part2 dec_msg dec_part2] in *.
+  rewrite (mask_cert13_id ocsp scts exts Hs H0 H1) in He.
+  apply obind_some in He as [cl [He1 He2]].
+  destruct (cert_list_rt certs exts cl Hs Hc He1) as [Hwf Hd].
+  assert (W : wf F_cert13 (VP (VN 0) cl) = true) by exact Hwf.
+  rewrite (dec_all_enc F_cert13 _ e eq_refl W He2). rewrite Hd.
+  apply Bool.eqb_prop in H0. apply Bool.eqb_prop in H1. now rewrite <- H0, <- H1.
+Qed.
+
+Lemma valid_sess13_split suite created secret certs exts : valid (MSess13 suite created secret certs exts) = true ->
+  check_slots ps_cert13 exts = true /\ negb (is_nil secret) = true /\
+  (negb (is_nil certs) || (isVU (sget 0 exts) && isVU (sget 1 exts))) = true.
+Proof.
+  cbn [valid valid_part2]. intro H. apply andb_prop in H as [H H3]. apply andb_prop in H as [H1 H2]. auto.
+Qed.
+
+Lemma roundtrip_sess13 suite created secret certs exts e :
+  valid (MSess13 suite created secret certs exts) = true -> enc_msg (MSess13 suite created secret certs exts) = Some e ->
+  dec_msg KSess13 false e = Some (MSess13 suite created secret certs exts).
+Proof.
+  intros Hv He. apply valid_sess13_split in Hv as [Hs [Hsec Hc]].
+  cbn [enc_msg enc_part2 dec_msg dec_part2] in *.
+  apply obind_some in He as [cl [He1 He2]].
+  destruct (cert_list_rt certs exts cl Hs Hc He1) as [Hwf Hd].
+  assert (W : wf F_sess13 (VP (VN 772) (VP (VN 0) (VP (VN suite) (VP (VN created) (VP (VB secret) cl))))) = true).
+  { cbn [F_sess13 wf]. change (wf f_cert_list cl) with (wf f_cert_list cl). rewrite Hwf.
+    cbn [andb]. rewrite Hsec. reflexivity. }
+  rewrite (dec_all_enc F_sess13 _ e eq_refl W He2). now rewrite Hd.
+Qed.
+
+(* ---------- hellos ---------- *)
+Lemma enc_hello_some t fb bv x e : enc_hello t fb bv x = Some e ->
+  exists b tl, enc fb bv = Some b /\ (if is_nil x then Some [] else wr_lp 2 x) = Some tl /\
+               e = (t :: be_enc 3 (blen (b ++ tl))) ++ b ++ tl.
+Proof.
+  unfold enc_hello. destruct (enc fb bv) as [b|]; [|discriminate].
+  destruct (if is_nil x then Some [] else wr_lp 2 x) as [tl|]; [|discriminate].
+  destruct (wr_lp 3 (b ++ tl)) as [e'|] eqn:W; [|discriminate]. intro H; inversion H.
+  apply wr_lp_some in W as [_ ->]. exists b, tl. repeat split.
+Qed.
+
+Lemma hdr4_len (t : N) n : blen (t :: be_enc 3 n) = 4.
+Proof. unfold blen. cbn [length]. now rewrite be_enc_length. Qed.
+
+Lemma hello_rt t fb bv x e : fmt_ok fb = true -> wf fb bv = true -> enc_hello t fb bv x = Some e ->
+  dec_hello fb e = Some (bv, if is_nil x then None else Some x).
+Proof.
+  intros Hok Hwf He. apply enc_hello_some in He as [b [tl [Eb [Etl ->]]]].
+  unfold dec_hello. rewrite rd_bytes_app' by apply hdr4_len.
+  rewrite (dec_enc fb Hok bv b Hwf Eb tl).
+  destruct x as [|x0 x']; cbn [is_nil] in *.
+  - inversion Etl; subst tl. reflexivity.
+  - pose proof (rd_lp_wr 2 _ _ [] Etl) as R. rewrite app_nil_r in R.
+    apply wr_lp_some in Etl as [_ Etl]. rewrite Etl in *. cbn [be_enc app] in *. now rewrite R.
+Qed.
+
+(* a strict prefix of a hello is rejected, except the cut right after the fixed part *)
+Lemma hello_prefix t fb bv x e p q : fmt_ok fb = true -> wf fb bv = true ->
+  enc_hello t fb bv x = Some e -> e = p ++ q -> q <> [] ->
+  dec_hello fb p = None \/
+  (dec_hello fb p = Some (bv, None) /\ exists b, enc fb bv = Some b /\ length p = (4 + length b)%nat).
+Proof.
+  intros Hok Hwf He E Hq. apply enc_hello_some in He as [b [tl [Eb [Etl ->]]]].
+  set (h := t :: be_enc 3 (blen (b ++ tl))) in *.
+  assert (Hh : blen h = 4) by apply hdr4_len.
+  assert (NZ : forall l : bytes, l <> [] -> blen l <> 0) by (intros l Hl Z; apply blen_nil_iff in Z; contradiction).
+  unfold dec_hello.
+  apply app_split in E as [[l [Hl [E1 E2]]]|[l [E1 E2]]].
+  - (* inside the 4-byte header *)
+    left. rewrite rd_bytes_short; [reflexivity|].
+    assert (HL : blen h = blen p + blen l) by (rewrite E1; apply blen_app). apply NZ in Hl. lia.
+  - subst p. rewrite rd_bytes_app' by exact Hh.
+    apply app_split in E2 as [[l2 [Hl2 [E3 E4]]]|[l2 [E3 E4]]].
+    + (* inside the fixed part *)
+      left. now rewrite (no_strict_prefix fb Hok bv b l l2 Hwf Eb E3 Hl2).
+    + subst l. rewrite (dec_enc fb Hok bv b Hwf Eb l2).
+      destruct l2 as [|c0 l2'].
+      * (* the cut *)
+        right. split; [reflexivity|]. exists b. split; [exact Eb|].
+        rewrite app_nil_r, app_length. unfold blen in Hh. lia.
+      * (* inside the extension block *)
+        left. destruct x as [|x0 x']; cbn [is_nil] in Etl.
+        -- injection Etl as Et. rewrite <- Et in E4. discriminate E4.
+        -- now rewrite (rd_lp_prefix 2 _ tl (c0 :: l2') q Etl E4 Hq).
+Qed.
+
+Lemma forallb_wf_nums l : forallb (wf U16) (map VN l) = true.
+Proof. induction l as [|x l IH]; simpl; [reflexivity|exact IH]. Qed.
+
+Lemma wf_ch_base v r s su c : wf f_ch_base (ch_base v r s su c) = true.
+Proof. unfold f_ch_base, ch_base, vnums. cbn [wf andb negb]. rewrite forallb_wf_nums. reflexivity. Qed.
+
+Lemma wf_sh_base v r s c k : wf f_sh_base (sh_base v r s c k) = true.
+Proof. reflexivity. Qed.
+
+Lemma ch_loop suites exts x : check_slots (ps_ch suites) exts = true -> enc_exts wt_ch exts = Some x ->
+  match (if is_nil x then None else Some x) with
+  | None => Some (init_ch suites)
+  | Some y => run_exts tb_ch USkip (init_ch suites) y
+  end = Some exts.
+Proof.
+  intros Hv He. pose proof (ch_exts suites exts x Hv He) as R.
+  destruct x; [exact R|exact R].
+Qed.
+
+Lemma roundtrip_ch v r s su c exts e :
+  valid (MCH v r s su c exts) = true -> enc_msg (MCH v r s su c exts) = Some e ->
+  dec_msg KCH false e = Some (MCH v r s su c exts).
+Proof.
+  cbn [valid valid_part2 enc_msg enc_part2 dec_msg dec_part2]. intros Hv He.
+  apply obind_some in He as [x [He1 He2]].
+  rewrite (hello_rt 1 f_ch_base _ x e eq_refl (wf_ch_base v r s su c) He2).
+  unfold ch_base, vnums. rewrite map_unVN.
+  now rewrite (ch_loop su exts x Hv He1).
+Qed.
+
+(* unknown extensions of a serverHello: replaying the raw tail rebuilds slot 12 *)
+Lemma sset_sset i a b : forall st, sset i a (sset i b st) = sset i a st.
+Proof. revert i. induction st as [|x st IH]; intros; destruct i; simpl; try reflexivity. Abort.
+
+Lemma sset_sset i a b st : sset i a (sset i b st) = sset i a st.
+Proof.
+  revert i. induction st as [|x st IH]; intros [|i]; simpl; try reflexivity. now rewrite IH.
+Qed.
+
+Lemma fold_raws i : forall raws st l0, (i < length st)%nat -> sget i st = VL l0 ->
+  fold_left (fun st raw => sset i (VL (unVL' (sget i st) ++ [VB raw])) st) raws st =
+  sset i (VL (l0 ++ map VB raws)) st.
+Proof.
+  induction raws as [|raw raws IH]; intros st l0 Hi Hs; cbn [fold_left map].
+  - rewrite app_nil_r. apply slots_ext; [now rewrite sset_length|].
+    intro j. destruct (Nat.eq_dec i j) as [<-|Hne].
+    + rewrite sget_sset_same by exact Hi. exact Hs.
+    + now rewrite sget_sset_other by exact Hne.
+  - rewrite Hs. cbn [unVL'].
+    rewrite (IH _ (l0 ++ [VB raw])).
+    + rewrite sset_sset, <- app_assoc. reflexivity.
+    + now rewrite sset_length.
+    + now rewrite sget_sset_same by exact Hi.
+Qed.
+
+Lemma p_unknown_shape v : p_unknown v = true ->
+  exists l, v = VL l /\ map VB (map unVB l) = l /\ forallb (raw_ok tb_sh) (map unVB l) = true.
+Proof.
+  destruct v as [|?|?|l|? ?]; try discriminate. cbn [p_unknown]. intro H. exists l. split; [reflexivity|].
+  induction l as [|x l IH]; [split; reflexivity|].
+  cbn [forallb] in H. apply andb_prop in H as [Hx Hl]. destruct (IH Hl) as [I1 I2].
+  destruct x as [|?|raw|?|? ?]; try discriminate. cbn [map unVB forallb]. rewrite I1, Hx, I2. split; reflexivity.
+Qed.
+
+Lemma sh_loop exts x :
+  check_slots ps_sh exts = true -> enc_exts wt_sh exts = Some x ->
+  let full := x ++ concat (raws_of (sget 12 exts)) in
+  match (if is_nil full then None else Some full) with
+  | None => Some init_sh
+  | Some y => run_exts tb_sh (UKeep 12) init_sh y
+  end = Some exts.
+Proof.
+  intros Hv He full.
+  assert (R : ext_loop tb_sh (UKeep 12) (length full) init_sh full = Some exts).
+  { unfold full. rewrite (sh_std_exts exts x _ Hv He).
+    shape Hv exts. split_preds Hv. cbn [sget nth].
+    destruct (p_unknown_shape _ HP11) as [l [-> [Hmap Hraw]]].
+    unfold raws_of. cbn [unVL'].
+    rewrite (ext_loop_raws tb_sh 12 (map unVB l) _ _ Hraw (le_n _)).
+    rewrite (fold_raws 12 (map unVB l) _ []); [|simpl; lia|reflexivity].
+    cbn [app sset]. now rewrite Hmap. }
+  destruct full; exact R.
+Qed.
+
+Lemma roundtrip_sh v r s c k exts e :
+  valid (MSH v r s c k exts) = true -> enc_msg (MSH v r s c k exts) = Some e ->
+  dec_msg KSH false e = Some (MSH v r s c k exts).
+Proof.
+  cbn [valid valid_part2 enc_msg enc_part2 dec_msg dec_part2]. intros Hv He.
+  apply obind_some in He as [x [He1 He2]].
+  rewrite (hello_rt 2 f_sh_base _ _ e eq_refl (wf_sh_base v r s c k) He2).
+  unfold sh_base.
+  pose proof (sh_loop exts x Hv He1) as L. cbv zeta in L. unfold bytes in *. now rewrite L.
+Qed.
+
+(* ---------- truncation: TLS 1.3 messages and sessionStateTLS13 ---------- *)
+Lemma no_prefix_part2 m e p q :
+  match kind_of m with KEE | KNST13 | KCertReq13 | KCert13 | KSess13 => True | _ => False end ->
+  valid m = true -> enc_msg m = Some e -> e = p ++ q -> q <> [] ->
+  dec_msg (kind_of m) (has_of m) p = None.
+Proof.
+  intros HK Hv He E Hq. destruct m; try contradiction; clear HK.
+  - cbn [enc_msg enc_part2 kind_of dec_msg dec_part2] in *. apply obind_some in He as [x [He1 He2]].
+    now rewrite (dec_all_strict_prefix F_ee (VB x) e p q eq_refl eq_refl He2 E Hq).
+  - cbn [enc_msg enc_part2 kind_of dec_msg dec_part2] in *. apply obind_some in He as [x [He1 He2]].
+    now rewrite (dec_all_strict_prefix F_nst13
+      (VP (VN lifetime) (VP (VN age_add) (VP (VB nonce) (VP (VB label) (VB x))))) e p q eq_refl eq_refl He2 E Hq).
+  - cbn [enc_msg enc_part2 kind_of dec_msg dec_part2] in *. apply obind_some in He as [x [He1 He2]].
+    now rewrite (dec_all_strict_prefix F_cert_req13 (VP (VN 0) (VB x)) e p q eq_refl eq_refl He2 E Hq).
+  - apply valid_cert13_split in Hv as [Hs [H0 [H1 Hc]]].
+    cbn [enc_msg enc_part2 kind_of dec_msg dec_part2] in *.
+    rewrite (mask_cert13_id ocsp_stapling scts exts Hs H0 H1) in He.
+    apply obind_some in He as [cl [He1 He2]].
+    destruct (cert_list_rt certs exts cl Hs Hc He1) as [Hwf _].
+    assert (W : wf F_cert13 (VP (VN 0) cl) = true) by exact Hwf.
+    now rewrite (dec_all_strict_prefix F_cert13 _ e p q eq_refl W He2 E Hq).
+  - apply valid_sess13_split in Hv as [Hs [Hsec Hc]].
+    cbn [enc_msg enc_part2 kind_of dec_msg dec_part2] in *.
+    apply obind_some in He as [cl [He1 He2]].
+    destruct (cert_list_rt certs exts cl Hs Hc He1) as [Hwf _].
+    assert (W : wf F_sess13 (VP (VN 772) (VP (VN 0) (VP (VN suite) (VP (VN created) (VP (VB secret) cl))))) = true).
+    { cbn [F_sess13 wf]. rewrite Hwf. cbn [andb]. rewrite Hsec. reflexivity. }
+    now rewrite (dec_all_strict_prefix F_sess13 _ e p q eq_refl W He2 E Hq).
+Qed.
+
+(* ---------- truncation of hellos: only the cut after the fixed part is accepted ---------- *)
+Theorem hello_prefixes m e p q :
+  no_opt_tail (kind_of m) = false -> valid m = true -> enc_msg m = Some e -> e = p ++ q -> q <> [] ->
+  dec_msg (kind_of m) (has_of m) p = None \/
+  (dec_msg (kind_of m) (has_of m) p = Some (strip_exts m) /\
+   exists b, hello_base_enc m = Some b /\ length p = (4 + length b)%nat).
+Proof.
+  intros HK Hv He E Hq. destruct m; try discriminate; clear HK;
+    cbn [enc_msg enc_part2 kind_of dec_msg dec_part2 strip_exts hello_base_enc] in *;
+    apply obind_some in He as [x [He1 He2]].
+  - destruct (hello_prefix 2 f_sh_base _ _ e p q eq_refl (wf_sh_base _ _ _ _ _) He2 E Hq) as [D|[D L]].
+    + left. now rewrite D.
+    + right. split; [|exact L]. rewrite D. reflexivity.
+  - destruct (hello_prefix 1 f_ch_base _ _ e p q eq_refl (wf_ch_base _ _ _ _ _) He2 E Hq) as [D|[D L]].
+    + left. now rewrite D.
+    + right. split; [|exact L]. rewrite D. unfold ch_base, vnums. cbn [option_map]. now rewrite map_unVN.
+Qed.
+
+(* ====================== all kinds ====================== *)
+Theorem roundtrip_all : forall m e,
+  valid m = true -> enc_msg m = Some e -> dec_msg (kind_of m) (has_of m) e = Some m.
+Proof.
+  intros m e Hv He. destruct (is_dsl (kind_of m)) eqn:D; [now apply roundtrip_dsl|].
+  destruct m; try discriminate D; cbn [kind_of has_of].
+  - now apply roundtrip_cert.
+  - now apply roundtrip_ee.
+  - now apply roundtrip_nst13.
+  - now apply roundtrip_cert_req13.
+  - now apply roundtrip_cert13.
+  - now apply roundtrip_sess13.
+  - now apply roundtrip_sh.
+  - now apply roundtrip_ch.
+Qed.
+
+Theorem no_strict_prefix_all : forall m e p q,
+  no_opt_tail (kind_of m) = true -> valid m = true -> enc_msg m = Some e -> e = p ++ q -> q <> [] ->
+  dec_msg (kind_of m) (has_of m) p = None.
+Proof.
+  intros m e p q HT Hv He E Hq. destruct (is_dsl (kind_of m)) eqn:D; [now apply (no_prefix_dsl m e p q)|].
+  destruct m; try discriminate D; try discriminate HT.
+  - exact (no_prefix_cert certs e p q He E Hq).
+  - now apply (no_prefix_part2 _ e p q).
+  - now apply (no_prefix_part2 _ e p q).
+  - now apply (no_prefix_part2 _ e p q).
+  - now apply (no_prefix_part2 _ e p q).
+  - now apply (no_prefix_part2 _ e p q).
+Qed.
+
+(* ---------- non-vacuity: concrete values inside the round-trip domain ---------- *)
+Definition ex_ch : msg :=
+  MCH 771 (nrep 32 7) [1; 2] [4865; 255] [0]
+    [VB [97; 46; 98]; VN 1; VL [VN 29; VN 23]; VB [0]; VP (VN 1) (VB [9; 9]); VL [VN 1027]; VL [];
+     VP (VN 1) (VB []); VL [VB [104; 50]]; VP (VN 1) (VB [5; 5; 5]); VN 1; VN 1; VL [VN 772; VN 771]; VB [];
+     VL [VP (VN 29) (VB [1; 2; 3])]; VN 0; VB [1]; VP (VL [VP (VB [8; 8]) (VN 77)]) (VL [VB [6; 6; 6]])].
+Definition ex_sh : msg :=
+  MSH 771 (nrep 32 9) [] 4865 0
+    [VN 1; VN 0; VP (VN 1) (VB [3]); VB [104; 50]; VL [VB [1; 2]]; VN 772; VP (VN 29) (VB [4; 4]); VP (VN 1) (VN 0);
+     VB []; VN 0; VB [0]; VN 1; VL [VB [0; 15; 0; 1; 1]]].
+Definition ex_cert13 : msg :=
+  MCert13 true true [[48; 1]; [48; 2]] [VB [1; 2; 3]; VL [VB [7]; VB [8; 9]]].
+Definition is_some {A} (o : option A) : bool := match o with Some _ => true | None => false end.
+
+Lemma examples_valid :
+  (valid ex_ch = true /\ is_some (enc_msg ex_ch) = true) /\
+  (valid ex_sh = true /\ is_some (enc_msg ex_sh) = true) /\
+  (valid ex_cert13 = true /\ is_some (enc_msg ex_cert13) = true) /\
+  (valid (MCertReq true [1; 64] [1027; 2052] [[48; 0]; []]) = true) /\
+  (* outside the domain: a certificate list whose last certificate is empty does not survive *)
+  (valid (MCert [[1]; []]) = false /\
+   match enc_msg (MCert [[1]; []]) with Some e => dec_msg KCert false e | None => None end = None).
+Proof. vm_compute. repeat split; reflexivity. Qed.
